@@ -15,8 +15,10 @@ import Mathlib.Analysis.Complex.Norm
   (`‖x‖² = Σ |x i|²`, exactly `½‖x-y‖²` of a flattened numpy array), complex scalars are `ℂ`.
   What is *not* proved here but only validated by the correspondence check: that numpy's elementwise
   evaluation / sort / cumsum / norm and the `Prox` plumbing (split, vec, reshape) compute these
-  formulas (Model/C11.lean executes them over ℚ and is compared with the real classes), Duchi's
-  index search (checked at run time by the exact KKT certificate `kktOk`), and `psd_proj`.
+  formulas (Model/C11.lean executes them over ℚ and is compared with the real classes).
+  Duchi's index search of `l1_proj` is proved in `Props/C11Duchi.lean` (`duchi_theta`, `l1_proj_duchi_*`) and, for
+  the executable model, in `Props/C11DuchiModel.lean` (`duchiTheta_kkt`); `psd_proj` in `Props/C11Psd.lean`
+  (`psd_proj_prox`, with numpy's `eigh` as a parameter under its spectral contract).
 -/
 namespace SigpyVerif.C11
 open SigpyVerif.Gen.Prox InnerProductSpace
@@ -400,7 +402,7 @@ theorem unitary_transform_prox {E F' : Type} [NormedAddCommGroup E] [InnerProduc
 
 /-- **KKT for the l1-ball projection** (real arrays): if `θ ≥ 0` and `Σ (|y i| - θ)₊ = ε` then
     `soft_thresh(θ, y)` is the projection of `y` onto `{‖x‖₁ ≤ ε}`.  (Duchi's sort/cumsum search
-    returns such a `θ`: executed exactly by the model and certified per run by `kktOk`.) -/
+    returns such a `θ`: `duchi_theta` / `l1_proj_duchi_real` in `Props/C11Duchi.lean`.) -/
 theorem l1_proj_kkt_real {θ ε : ℝ} (hθ : 0 ≤ θ) (y : Vec ι ℝ) (hsum : ∑ i, max (|y i| - θ) 0 = ε) :
     IsProjOn {x : Vec ι ℝ | ∑ i, |x i| ≤ ε} y (vec fun i => softThresh θ (y i) |y i|) := by
   have h1 : IsProxOn Set.univ (fun x : Vec ι ℝ => θ * ∑ i, |x i|) y (vec fun i => softThresh θ (y i) |y i|) := by
